@@ -195,6 +195,9 @@ func mvtLens(in *mvtIntern, data []byte) ([]interface{}, error) {
 	return out, nil
 }
 
+// the properties map of the feature generated last (features may share one map object)
+var c03PrevProps geojson.Properties
+
 func init() {
 	register("mvt", func(c *ctx) {
 		big := func() float64 {
@@ -399,7 +402,7 @@ func init() {
 					}
 					bigID := 0 // ids beyond 32 bits for the kinds that can hold them
 					if c.rng.Intn(5) == 0 {
-						bigID = []int{1 << 32, 1<<32 + 5, 5128740932, 1 << 35, 1<<53 - 1}[c.rng.Intn(5)]
+						bigID = []int{1 << 32, 1<<32 + 5, 5128740932, 1 << 35, 1<<53 - 1, 1<<52 + 1, 1<<52 + 4097}[c.rng.Intn(7)]
 					}
 					switch c.rng.Intn(14) {
 					case 0:
@@ -441,6 +444,9 @@ func init() {
 						f.ID = uint16(idv % 60000)
 					case 11:
 						f.ID = float32(idv % 4096)
+						if bigID != 0 {
+							f.ID = float32(1<<23 + 1 + 2*(idv%4096)) // odd and exact in float32: adding a half would round
+						}
 					}
 					nprops := c.rng.Intn(5)
 					if nprops == 4 {
@@ -450,6 +456,11 @@ func init() {
 					for p := 0; p < nprops; p++ {
 						f.Properties[keyPool[c.rng.Intn(len(keyPool))]] = value()
 					}
+					// consecutive features - also the last of one layer and the first of the next - may share one map object
+					if c03PrevProps != nil && c.rng.Intn(5) == 0 {
+						f.Properties = c03PrevProps
+					}
+					c03PrevProps = f.Properties
 					keys := make([]string, 0, len(f.Properties))
 					for k := range f.Properties {
 						keys = append(keys, k)
